@@ -80,23 +80,29 @@ where
     /// Like [`Gc::new`], but returns the cached pointer if possible.
     #[inline]
     pub fn alloc<T: Collect<'gc>>(&self, mc: &Mutation<'gc>, t: T) -> Gc<'gc, T> {
-        // SAFETY: we are given a `T` by value.
-        if let Some(ptr) = unsafe { self.alloc_zst() } {
-            ptr
-        } else {
-            Gc::new(mc, t)
+        // A value with a destructor cannot share the dummy allocation: there is nowhere to keep it,
+        // and dropping it here would leave the returned pointer referring to a destructed value.
+        if !mem::needs_drop::<T>() {
+            // SAFETY: we are given a `T` by value.
+            if let Some(ptr) = unsafe { self.alloc_zst() } {
+                return ptr;
+            }
         }
+        Gc::new(mc, t)
     }
 
     /// Like [`Gc::new_static`], but returns the cached pointer if possible.
     #[inline]
     pub fn alloc_static<T: 'static>(&self, mc: &Mutation<'gc>, t: T) -> Gc<'gc, T> {
-        // SAFETY: we are given a `T` by value.
-        if let Some(ptr) = unsafe { self.alloc_zst() } {
-            ptr
-        } else {
-            Gc::new_static(mc, t)
+        // A value with a destructor cannot share the dummy allocation: there is nowhere to keep it,
+        // and dropping it here would leave the returned pointer referring to a destructed value.
+        if !mem::needs_drop::<T>() {
+            // SAFETY: we are given a `T` by value.
+            if let Some(ptr) = unsafe { self.alloc_zst() } {
+                return ptr;
+            }
         }
+        Gc::new_static(mc, t)
     }
 }
 
